@@ -114,7 +114,7 @@ func (c *c20) feeFloor(n int) {
 			run.Count("C20.chain_price_vector_refused")
 			continue
 		}
-		gas := mon.Pick(rng, []uint64{0, 1, 7, 200_000, 1 << 40, 1<<63 - 1, uint64(1 + rng.Intn(1_000_000))})
+		gas := mon.Pick(rng, []uint64{0, 1, 7, 200_000, 1 << 40, 1<<63 - 1, 1 << 63, 1<<63 + 12345, 1<<64 - 1, uint64(1 + rng.Intn(1_000_000))})
 		// floors in exact rationals
 		floor := map[string]*big.Rat{}
 		anyPositive := false
@@ -436,7 +436,7 @@ func (c *c20) redundant(n int) {
 }
 
 func checkC20(run *mon.Run, rng *mon.Rand, thorough bool) {
-	run.Rule = "(a) fee floor: generated node price vectors (through sdk.ParseDecCoins) and chain price vectors (through MsgUpdateParams/Params.Validate) over 1-4 denoms with prices {absent, 1e-18, 0.15, 1/3, 2/3, 1, 2.5, 1e6, 1e-6}, gas {0,1,7,2e5,2^40,2^63-1,random}, fees one below / exactly at / one above / half of ceil(max(node,chain) x gas) per denom, in CheckTx/ReCheckTx/DeliverTx modes, against an oracle in exact rationals (two-sided for gas>0, 'only if' for gas=0); (b) system-lane matcher on 17 fixed + 300 generated message shapes with nesting depth 0..2; (c) free-lane matcher on generated whitelists x payer/granter combinations; (d) redundant-relay filter on generated mixes of stale / fresh / ahead deposit finalizations and other messages in check, recheck, deliver and simulate modes. Distinct non-trivial = cells of (mode, denoms, gas class, condition, verdict) etc."
+	run.Rule = "(a) fee floor: generated node price vectors (through sdk.ParseDecCoins) and chain price vectors (through MsgUpdateParams/Params.Validate) over 1-4 denoms with prices {absent, 1e-18, 0.15, 1/3, 2/3, 1, 2.5, 1e6, 1e-6}, gas {0,1,7,2e5,2^40,2^63-1,2^63,2^63+12345,2^64-1,random}, fees one below / exactly at / one above / half of ceil(max(node,chain) x gas) per denom, in CheckTx/ReCheckTx/DeliverTx modes, against an oracle in exact rationals (two-sided for gas>0, 'only if' for gas=0); (b) system-lane matcher on 17 fixed + 300 generated message shapes with nesting depth 0..2; (c) free-lane matcher on generated whitelists x payer/granter combinations; (d) redundant-relay filter on generated mixes of stale / fresh / ahead deposit finalizations and other messages in check, recheck, deliver and simulate modes. Distinct non-trivial = cells of (mode, denoms, gas class, condition, verdict) etc."
 	run.Assumptions = []string{"for gas = 0 only the stated 'only if' direction is asserted (the implementation's IsAnyGTE ignores zero requirements)", "mixed transactions (stale deposits + other messages) are outside the statement and only counted"}
 	for _, cl := range []string{"C20.fee.nothing_enforced_outside_checking", "C20.fee.any_fee_passes_when_floors_zero", "C20.fee.admitted_only_if_some_floor_met", "C20.fee.floor_met_is_admitted",
 		"C20.system_lane_exactly_one_oracle_update", "C20.free_lane_payer_or_granter_whitelisted", "C20.redundancy_only_at_check_time", "C20.redundant_only_tx_rejected", "C20.tx_with_fresh_deposit_passes"} {
